@@ -31,6 +31,8 @@ struct Sched {
     opi: Vec<usize>, // index of the operation each worker is executing
 }
 
+static LAST_PRE: Mutex<Vec<u64>> = Mutex::new(Vec::new());
+
 thread_local! { static TID: Cell<Option<usize>> = Cell::new(None); }
 
 struct Ctl {
@@ -87,10 +89,14 @@ fn run_one(
     let ctx = Context { uid: 0, gid: 0, pid: 1 };
     // reset the table entry of the file, then r0 references
     fs.forget(&ctx, ino, u64::MAX);
+    // the r0 references held before the run; the numbers returned are reported (a file keeps its number while the
+    // mapping is remembered: they must all be `ino`)
+    let mut pre = vec![];
     for k in 0..r0 {
         let e = fs.lookup(&ctx, 1, &names[k % names.len()]).expect("pre-lookup");
-        assert_eq!(e.inode, ino);
+        pre.push(e.inode);
     }
+    *LAST_PRE.lock().unwrap() = pre;
     let n = progs.len();
     {
         let mut st = ctl.m.lock().unwrap();
@@ -228,6 +234,16 @@ fn main() {
     let mut cfg = Config::default();
     cfg.root_dir = root.clone();
     cfg.do_import = true;
+    // optional first directive: cfg <inode_file_handles 0|1> <use_host_ino 0|1>
+    let mut cell = (0, 0);
+    if let Some(l) = script.lines().next() {
+        let w: Vec<&str> = l.split_whitespace().collect();
+        if w.first() == Some(&"cfg") {
+            cell = (w[1].parse().unwrap(), w[2].parse().unwrap());
+        }
+    }
+    cfg.inode_file_handles = cell.0 == 1;
+    cfg.use_host_ino = cell.1 == 1;
     let fs = Arc::new(Fs::new(cfg).expect("new"));
     fs.init(FsOptions::empty()).expect("init");
     let ctx = Context { uid: 0, gid: 0, pid: 1 };
@@ -276,8 +292,8 @@ fn main() {
             (rc, ga)
         };
         println!(
-            "{{\"r0\":{},\"post\":{},\"rc2\":{},\"getattr2\":{},\"progs\":{:?},\"ino\":{},\"sched\":{:?},\"trace\":{:?},\"results\":{:?},\"dones\":{:?},\"rc\":{},\"getattr\":{},\"ninodes\":{}}}",
-            r0, post, rc2, ga2,
+            "{{\"pre\":{:?},\"cell\":[{},{}],\"r0\":{},\"post\":{},\"rc2\":{},\"getattr2\":{},\"progs\":{:?},\"ino\":{},\"sched\":{:?},\"trace\":{:?},\"results\":{:?},\"dones\":{:?},\"rc\":{},\"getattr\":{},\"ninodes\":{}}}",
+            LAST_PRE.lock().unwrap().clone(), cell.0, cell.1, r0, post, rc2, ga2,
             progs.iter().map(|p| p.iter().map(|o| match o { Op::L => "L".to_string(), Op::F(c) => format!("F{}", c), Op::R(true) => "R+".to_string(), Op::R(false) => "R-".to_string() }).collect::<Vec<_>>()).collect::<Vec<_>>(),
             ino, out.0, out.1, out.3, out.4, rc, ga, sz.0
         );
@@ -288,6 +304,7 @@ fn main() {
             continue;
         }
         match w[0] {
+            "cfg" => {}
             "r0" => {
                 r0 = w[1].parse().unwrap();
                 post = 0;
